@@ -101,7 +101,7 @@ def s_gauss(draw):
     return {"sps": sps, "T": T, "m": draw(st.integers(1, 4)), "c": draw(st.one_of(st.just(0.0), st.just(0), st.floats(-2, 2))),
             "nbits": nbits, "pos": draw(st.integers(2, nbits - 3)), "Vout": draw(volt.filter(lambda v: abs(v) >= 1e-3)),
             "bias": draw(st.one_of(st.just(0.0), volt)), "word": draw(st.lists(st.integers(0, 1), min_size=4, max_size=40)),
-            "default_T": draw(st.booleans())}
+            "default_T": draw(st.booleans()), "prior_c": draw(st.one_of(st.just(0.0), st.floats(0.3, 2), st.floats(-2, -0.3)))}
 
 
 def e_gauss(c):
@@ -129,7 +129,17 @@ def e_gauss(c):
         width = right - left
         check(abs(width - T) <= 1.05, "gaussian-width!=T", f"sps={sps} T={T} m={m} c={ch}: FWHM {width:.4f}")
     # default T is the slot width; bits are recovered at the slot centre for unchirped pulses
+    if abs(ch) >= 0.3:
+        # the chirp asked for NOW is applied (whatever pulse an earlier call in this process used): phase -c/2*(t/T0)^(2m) away from the peak
+        ph = (x.signal - bias) / Vout
+        k_ = np.arange(ph.size) - centre
+        far = (np.abs(k_) > 0.3 * T) & (np.abs(ph) > 0.05)
+        if far.any() and np.abs(ph[far].imag).max() <= 1e-9:
+            check(False, "chirped-gaussian-is-real", f"sps={sps} T={T} m={m} c={ch}: no imaginary part anywhere on the pulse flanks")
     word = np.array(c["word"])
+    if c.get("prior_c"):
+        # an earlier CHIRPED pulse train with the same slot width, pulse width and order in this process; the unchirped one below is still unchirped
+        lib(D.DAC, word, bias, Vout, "gaussian", T=sps, m=1, c=c["prior_c"])
     y = lib(D.DAC, word, bias, Vout, "gaussian") if c["default_T"] else lib(D.DAC, word, bias, Vout, "gaussian", T=sps)
     contract(y, "E", 1, len(word) * sps, "DAC(gaussian)")
     smp = lib(D.SAMPLER, y, sps // 2).signal
@@ -137,7 +147,8 @@ def e_gauss(c):
     rec = ((smp.real - (bias + Vout / 2)) * np.sign(Vout) > 0).astype(int)
     check(np.array_equal(rec, word), "sampled-bits!=input", f"gaussian T=sps={sps} Vout={Vout} bias={bias} word={word.tolist()}")
     return {"nontrivial": m > 1 or sps % 2 == 1, "classes": [f"m{m}", "odd-sps" if sps % 2 else "even-sps", "chirp" if ch else "unchirped",
-                                                              "T<sps" if T < sps else "T=sps" if T == sps else "T>sps"]}
+                                                              "T<sps" if T < sps else "T=sps" if T == sps else "T>sps",
+                                                              "after-chirped-call" if c.get("prior_c") else "no-prior"]}
 
 
 s_err = st.fixed_dictionaries({"sps": st.integers(2, 32), "what": st.sampled_from(
